@@ -148,7 +148,19 @@ def c_rbf(case, ctx):
     Sg = S / float(np.min(np.array(case["ls"])[cols]))
     if len(cols) >= 2 and case["nctrl"] >= 2:
         ctx.nontrivial([form, proper, n1, cols, case["scale"] is None, case["via"], _lsq(case["ls"])])
-    ev = G.guard(ctx, ("evaluator_constructor", form), lambda: RBFEvaluator(kernel, Xc, alpha), always=True)
+    # memory layout of the control points handed to the constructor: C order, Fortran order (what
+    # DFTKernel.set_control_points(reduce=True) stores), or a strided view; the values are the same
+    layout = ["C", "F", "strided"][(case["seed"] // 7) % 3]
+    ctx.event("ctrl_layout=" + layout)
+    if layout == "F":
+        Xc_in = np.asfortranarray(Xc)
+    elif layout == "strided":
+        wide = np.zeros((case["nctrl"], 2 * n1))
+        wide[:, ::2] = Xc
+        Xc_in = wide[:, ::2]
+    else:
+        Xc_in = Xc
+    ev = G.guard(ctx, ("evaluator_constructor", form), lambda: RBFEvaluator(kernel, Xc_in, alpha), always=True)
     got_idx = getattr(ev, "_indexes", None)
     stride_ok = True
     if got_idx is not None:
